@@ -3,6 +3,7 @@ package c18
 import (
 	"fmt"
 	"regexp"
+	"strings"
 
 	"verif/internal/fw"
 )
@@ -16,20 +17,43 @@ func allKinds() []int {
 }
 
 func families(tier string) []fw.Family {
-	n := 3
-	if tier == "thorough" {
-		n = 4
-	}
-	strs := stringsUpTo(tokens, n)
 	both := []bool{true, false}
+	if tier == "thorough" {
+		strs := stringsUpTo(tokens, 4)
+		return []fw.Family{
+			familySubsetter(),
+			familyToPath(fmt.Sprintf("text to paths: %d strings of at most 4 tokens x 3 fonts x 2 faces", len(strs)), strs),
+			familyRenderAsPath(fmt.Sprintf("RenderAsPath: %d strings of at most 4 tokens x 3 fonts x %d layouts", len(strs), len(kinds)), strs),
+			familySingle(fmt.Sprintf("PDF, one text: %d strings of at most 4 tokens x 3 fonts x %d layouts x SubsetFonts on/off", len(strs), len(kinds)), strs, allKinds(), both),
+			familySingle(fmt.Sprintf("PDF, ToUnicode ranges and W ranges: %d strings over {a,b,c} and digit runs x 3 fonts x NewTextLine x SubsetFonts on/off", len(rangeStrings())), rangeStrings(), []int{kindLine}, both),
+			familyPairs("PDF, two texts", pairStrings, both),
+			familyReuse("PDF, one font object for two documents in a row", pairStrings),
+		}
+	}
+	// quick: a document with a fully embedded font costs 40 ms and more, one with a subsetted font
+	// 2 ms: full embedding gets all layouts up to 2 tokens and two layouts with 3 tokens
+	strs := stringsUpTo(tokens, 3)
+	strs2 := stringsUpTo(tokens, 2)
+	exactly3 := strs[len(strs2):]
 	return []fw.Family{
 		familySubsetter(),
-		familyToPath(fmt.Sprintf("text to paths: %d strings of at most %d tokens x 3 fonts x 2 faces", len(strs), n), strs),
-		familyRenderAsPath(fmt.Sprintf("RenderAsPath: %d strings of at most %d tokens x 3 fonts x %d layouts", len(strs), n, len(kinds)), strs),
-		familySingle(fmt.Sprintf("PDF, one text: %d strings of at most %d tokens x 3 fonts x %d layouts x SubsetFonts on/off", len(strs), n, len(kinds)), strs, allKinds(), both),
-		familyPairs(fmt.Sprintf("PDF, two texts: %d x %d strings x 3 x 3 fonts x {line, vertical upright}^2 x {same page, new page} x SubsetFonts on/off", len(pairStrings), len(pairStrings)), both),
-		familyReuse(fmt.Sprintf("PDF, one font object for two documents in a row: %d x %d strings x 3 fonts x SubsetFonts on/off for each", len(pairStrings), len(pairStrings))),
+		familyToPath(fmt.Sprintf("text to paths: %d strings of at most 3 tokens x 3 fonts x 2 faces", len(strs)), strs),
+		familyRenderAsPath(fmt.Sprintf("RenderAsPath: %d strings of at most 3 tokens x 3 fonts x %d layouts", len(strs), len(kinds)), strs),
+		familySingle(fmt.Sprintf("PDF, one text, SubsetFonts on: %d strings of at most 3 tokens x 3 fonts x %d layouts", len(strs), len(kinds)), strs, allKinds(), []bool{true}),
+		familySingle(fmt.Sprintf("PDF, one text, SubsetFonts off: %d strings of at most 2 tokens x 3 fonts x %d layouts", len(strs2), len(kinds)), strs2, allKinds(), []bool{false}),
+		familySingle(fmt.Sprintf("PDF, one text, SubsetFonts off: %d strings of 3 tokens x 3 fonts x {NewTextLine Left, NewTextBox justified}", len(exactly3)), exactly3, []int{kindLine, kindJustified}, []bool{false}),
+		familySingle(fmt.Sprintf("PDF, ToUnicode ranges and W ranges: %d strings over {a,b,c} and digit runs x 3 fonts x NewTextLine x SubsetFonts on/off", len(rangeStrings())), rangeStrings(), []int{kindLine}, both),
+		familyPairs("PDF, two texts", pairStrings[:3], both),
+		familyReuse("PDF, one font object for two documents in a row", pairStrings[:3]),
 	}
+}
+
+// rangeStrings exercise the compact notations of the writer that the 8-token alphabet cannot
+// reach: consecutive codes with consecutive Unicode values (ToUnicode bfrange) and six or more
+// consecutive codes of one width (the "first last width" groups of the W array).
+func rangeStrings() []string {
+	out := stringsUpTo([]string{"a", "b", "c"}, 3)[1:]
+	return append(out, "0123456", "a0123456b", "01234567x89", "x0123456", "abc0123456", "AV0123456é", "....... ", "iiiiiii")
 }
 
 func caseMatches(re string) func(*fw.Violation) bool {
@@ -58,12 +82,26 @@ func Prop() *fw.Property {
 		},
 		Families: families,
 		KnownPredicates: map[string]func(*fw.Violation) bool{
-			"cff-font-full-embedding":   caseMatches(`SubsetFonts:false.*of (EBGaramond|Dynalight) `),
-			"vertical-upright-layout":   caseMatches(`SetTextOrientation\(Upright\)`),
-			"vertical-rotated-layout":   caseMatches(`SetWritingMode\(VerticalRL\)\.WriteString`),
-			"ebgaramond":                caseMatches(`of EBGaramond `),
-			"second-document-of-a-font": caseMatches(`^with one font object loaded once`),
-			"subset-fonts-on":           caseMatches(`SubsetFonts:true`),
+			// SubsetFonts=false with a CFF font somewhere in the document
+			"cff-font-full-embedding": caseMatches(`SubsetFonts:false.* of (EBGaramond|Dynalight) `),
+			// a vertical layout with upright glyphs (the only one that uses the Identity-V font objects)
+			"vertical-upright-layout": caseMatches(`SetTextOrientation\(Upright\)`),
+			// a vertical layout with rotated (natural) glyphs
+			"vertical-rotated-layout": caseMatches(`SetWritingMode\(VerticalRL\)\.WriteString`),
+			// a CFF font whose program is subsetted a second time: second document of one font
+			// object, or one document that writes it horizontally and vertically
+			"cff-font-subsetted-again": func(v *fw.Violation) bool {
+				cff := regexp.MustCompile(` of (EBGaramond|Dynalight) `).MatchString(v.Case)
+				again := strings.HasPrefix(v.Case, "with one font object loaded once") ||
+					(strings.Contains(v.Case, "NewTextLine") && strings.Contains(v.Case, "Upright"))
+				return cff && again && strings.Contains(v.Case, "SubsetFonts:true")
+			},
+			// one font drawn horizontally and vertically upright in one document
+			"font-horizontal-and-vertical": func(v *fw.Violation) bool {
+				return strings.Contains(v.Case, "NewTextLine") && strings.Contains(v.Case, "Upright")
+			},
+			// EBGaramond substitutes glyphs that its cmap does not contain (f before f/i, hyphen between capitals)
+			"ebgaramond": caseMatches(` of EBGaramond `),
 		},
 	}
 }
